@@ -126,3 +126,36 @@ PROPS["C03"] = dict(
     trusted_base=[],
     bounded=[("c03_zonal_stats_dask", {"quick": 45, "thorough": 400}), ("c03_crosstab_dask", {"quick": 45, "thorough": 400})],
 )
+
+PROPS["C17"] = dict(
+    producers=[("pyvc.table_check", "table_items"), ("pyvc.table_check", "call_items")],
+    level="exploration",
+    technique="bounded differential check of every local operator against per-cell definitions (the list/dict-processing bodies are outside pyvc's subset); contract-level obligations only for the index bookkeeping (row-major nditer, reshape width, reducer table)",
+    not_decided=["per-cell bodies of the local operators (Python list / dict code): bounded only", "popularity's tie rule"],
+    assumptions=["np.nditer(ops, order='C') visits elements in row-major order; np.reshape(v, (-1, w))[r, c] = v[r*w + c]"],
+    trusted_base=[],
+    allow_no_contracts=True,
+    bounded=[("c17_local_operators", {"quick": 30, "thorough": 300})],
+)
+
+PROPS["C06"] = dict(
+    level="proof",
+    technique="contract-based: distance dispatch and compass bearing post-conditions, ghost-witness invariant of the real line sweep _process_proximity_line (pyvc VCs -> z3), metric lemmas; exactness / completeness and the four-sweep glue bounded (exhaustive small grids)",
+    not_decided=["exactness / completeness of the four-sweep propagation beyond the enumerated grids (known approximation)",
+                 "the glue _process._process_numpy (nested jitted closure) is not under contract: bounded",
+                 "GREAT_CIRCLE inside the sweep: bounded"],
+    assumptions=[],
+    trusted_base=[],
+    bounded=[("c06_proximity_soundness", {"quick": 40, "thorough": 400}), ("c06_proximity_exact_small_grids", {"quick": 60, "thorough": 900})],
+    timeout=200,
+)
+PROPS["C07"] = dict(
+    producers=[("pyvc.table_check", "call_items")],
+    level="exploration",
+    technique="bounded: chunked == whole-raster over random chunkings; contract-level obligations only for the halo / fallback arithmetic of _process_dask (normalised-source checks)",
+    not_decided=["that the sweep heuristic on a padded block reproduces the whole-raster result is a relational fact about an approximate algorithm; no contract within reach expresses it - bounded only"],
+    assumptions=["Dask map_overlap contract as in C01"],
+    trusted_base=[],
+    allow_no_contracts=True,
+    bounded=[("c07_chunked_proximity", {"quick": 60, "thorough": 600})],
+)
